@@ -281,6 +281,7 @@ ORDERS = {
         "n_nodes_per_face", "node_lat", "node_lon"],
     4: ["node_z", "node_y", "node_x", "face_x", "edge_x", "node_lat", "node_lon"],
     5: ["face_node_connectivity", "n_max_face_nodes", "node_z", "node_lat", "face_lat", "node_lon"],
+    6: ["face_jacobian", "node_lat", "node_lon"],        # the jacobian is computed without storing face_areas
 }
 
 DERIVED = ["face_jacobian", "face_areas", "n_nodes_per_face", "n_edge", "edge_node_connectivity", "face_edge_connectivity",
@@ -994,7 +995,7 @@ def run_case(ck, c, stats, collect):
     repeat = path is None and fmt not in ("geo", "exodus_fixture")
     snap0 = snapshot(src) if repeat else None
     fp1 = None
-    lazy = None
+    lazy = []
     try:
         with contextlib.redirect_stdout(io.StringIO()), warnings.catch_warnings():
             warnings.simplefilter("ignore")
@@ -1003,13 +1004,14 @@ def run_case(ck, c, stats, collect):
             order = c.get("order", c.get("idx", 0) % len(ORDERS))
             case["order"] = order
             touch(g, ORDERS[order])          # which attribute is read first is part of the quantifier
-            lazy = None
+            if collect is not None and fmt in ("mpas", "scrip", "esmf", "ugrid", "geos") and "node_lon" in fp1:
+                lazy.append(lazy_job(g, ORDERS[order], [], ex.aux.get("areas"), lon0=fp1["node_lon"][0].tolist()))
             if collect is not None and fmt == "fv" and d["coords"] == "xyz" and all(k in g._ds for k in ("node_x", "node_y", "node_z")):
                 xs, ys, zs = (np.asarray(g._ds[k].values, dtype=float) for k in ("node_x", "node_y", "node_z"))
                 nr = np.sqrt(xs * xs + ys * ys + zs * zs)
                 dl = [0.0 if abs(z / n) > 1.0 - 1e-8 else math.degrees(math.atan2(y, x)) % 360.0
                       for x, y, z, n in zip(xs.tolist(), ys.tolist(), zs.tolist(), nr.tolist())]
-                lazy = lazy_job(g, ORDERS[order], dl, None)
+                lazy.append(lazy_job(g, ORDERS[order], dl, None))
             fails = spec_check(ex, g)
             structural = any(cl in ("shape", "n_face", "n_node") for cl, _ in fails)
             seen = {cl for cl, _ in fails}
@@ -1026,7 +1028,7 @@ def run_case(ck, c, stats, collect):
                     if collect is not None and fmt in ("mpas", "scrip", "esmf") and "node_lon" in fp1:
                         # longitudes come from the source here: they must stay what the freshly built grid held;
                         # supplied areas stay, absent ones are derived by the first face_areas / face_jacobian read
-                        lazy = lazy_job(g, ORDERS[order] + DERIVED, [], ex.aux.get("areas"), lon0=fp1["node_lon"][0].tolist())
+                        lazy.append(lazy_job(g, ORDERS[order] + DERIVED, [], ex.aux.get("areas"), lon0=fp1["node_lon"][0].tolist()))
                     for cl, det in spec_check(ex, g):
                         if cl not in seen:
                             fails.append(("after_reads_" + cl, det))
@@ -1069,8 +1071,8 @@ def run_case(ck, c, stats, collect):
         stats["ok"][fmt] = stats["ok"].get(fmt, 0) + 1
     if collect is not None:
         try:
-            if fp1 is not None and lazy is not None:
-                collect.setdefault("lazy", []).append((lazy[0], "lazy", lazy[1], case))
+            for lz in (lazy if fp1 is not None else []):
+                collect.setdefault("lazy", []).append((lz[0], "lazy", lz[1], case))
             for cmd, line, kind, payload in model_jobs(c, src, ex, image, g):
                 collect.setdefault(cmd, []).append((line, kind, payload, case))
             for cmd, line, payload in wrap_jobs(c, src, ex, g):
